@@ -10,6 +10,7 @@ import (
 )
 
 type genOpts struct {
+	namespaces bool // @namespace rules and ns|el selectors
 	nesting    bool // CSS nesting in the input
 	wideColors bool // lab()/oklch()/color() values (only when they are not lowered)
 	layers     bool
@@ -40,6 +41,7 @@ func genDOM(r *Rng) *dom {
 		if r.Chance(30) {
 			nd.id = genIDs[r.Intn(len(genIDs))]
 		}
+		nd.ns = []string{"", "", "http://a", "http://b"}[r.Intn(4)]
 		for _, c := range genClasses {
 			if r.Chance(35) {
 				nd.classes = append(nd.classes, c)
@@ -101,6 +103,9 @@ func (d *dom) describe(t target) string {
 		for _, f := range sortedKeys(n.flags) {
 			s += ":" + f
 		}
+		if n.ns != "" {
+			s += "{ns=" + n.ns + "}"
+		}
 		s += fmt.Sprintf("@%d/%d", n.index, n.nsib)
 		parts = append([]string{s}, parts...)
 	}
@@ -152,6 +157,18 @@ func (g *sheetGen) simplePart(depth int) string {
 func (g *sheetGen) compound(depth int, allowPE bool) string {
 	r := g.r
 	var sb strings.Builder
+	if g.o.namespaces && r.Chance(35) {
+		g.note("sel-namespace")
+		sb.WriteString([]string{"a|", "b|", "*|", "|"}[r.Intn(4)])
+		sb.WriteString([]string{"a", "div", "p", "*", "span"}[r.Intn(5)])
+		if r.Chance(30) {
+			sb.WriteString([]string{"[a|data-x]", "[*|data-x=v]", "[|data-x]"}[r.Intn(3)])
+		}
+		for i := r.Intn(2); i > 0; i-- {
+			sb.WriteString(g.simplePart(depth))
+		}
+		return sb.String()
+	}
 	switch r.Intn(5) {
 	case 0, 1, 2:
 		sb.WriteString(r.Pick(genTags))
@@ -632,5 +649,12 @@ func (g *sheetGen) ruleList(depth int, indent string, n int) string {
 }
 
 func (g *sheetGen) sheet() string {
-	return g.ruleList(0, "", g.r.Range(2, 7))
+	pre := ""
+	if g.o.namespaces {
+		pre = "@namespace a url(http://a);\n@namespace b url(http://b);\n"
+		if g.r.Chance(25) {
+			pre = "@namespace url(http://a);\n" + pre
+		}
+	}
+	return pre + g.ruleList(0, "", g.r.Range(2, 7))
 }
